@@ -404,6 +404,7 @@ package admin
 //@   loop 1 invariant [every_envelope_preflighted] forall k int :: 0 <= k && k < len(prepared) ==> globalItemOK(s, prepared[k], items[k], managedRoutes, managedRoutesAvailable) && enqueueable(prepared[k])
 //@   calls queue.BatchEnqueuer.EnqueueBatch requires [C15:batch_is_every_item_and_each_passed_every_gate] respStatus == 0 && len(callee_items) == len(items) && forall k int :: 0 <= k && k < len(callee_items) ==> globalItemOK(s, callee_items[k], items[k], managedRoutes, managedRoutesAvailable)
 //@   calls queue.BatchEnqueuer.EnqueueBatch requires [C15:no_batch_id_is_already_in_the_queue] forall k int :: 0 <= k && k < len(callee_items) ==> !(callee_items[k].ID in storeIDs)
+//@   calls publishEnvelopeFromItem requires [C15:each_item_is_measured_against_the_limits_of_its_own_route] callee_maxBodyBytes == effPublishBody(s, callee_route) && callee_maxHeaderBytes == effPublishHdr(s, callee_route)
 //@   calls queue.BatchEnqueuer.EnqueueBatch requires [C15:global_path_enabled_and_audited] s.PublishGlobalDirectEnabled && (s.RequireManagementAuditReason ==> trim(headerGet(r.Header, "X-Hookaido-Audit-Reason")) != "")
 //@   ensures [C15:error_response_means_nothing_enqueued] implements(s.Store, "queue.BatchEnqueuer") && respStatus != 200 ==> batchCommitted == old(batchCommitted) && enqueues == old(enqueues)
 //@   ensures [C15:ok_response_means_the_whole_batch_committed_in_one_call] implements(s.Store, "queue.BatchEnqueuer") && respStatus == 200 ==> batchCommitted == old(batchCommitted) + 1 && batchCalls == old(batchCalls) + 1 && lastBatchLen == len(local(items)) && lastBatchErr == nil
@@ -437,6 +438,7 @@ package admin
 //@   loop 1 invariant [every_envelope_preflighted] forall k int :: 0 <= k && k < len(prepared) ==> scopedItemOK(prepared[k], items[k], route, targets) && enqueueable(prepared[k])
 //@   calls queue.BatchEnqueuer.EnqueueBatch requires [C15:batch_is_every_item_and_each_passed_every_gate] respStatus == 0 && len(callee_items) == len(items) && forall k int :: 0 <= k && k < len(callee_items) ==> scopedItemOK(callee_items[k], items[k], route, targets)
 //@   calls queue.BatchEnqueuer.EnqueueBatch requires [C15:no_batch_id_is_already_in_the_queue] forall k int :: 0 <= k && k < len(callee_items) ==> !(callee_items[k].ID in storeIDs)
+//@   calls publishEnvelopeFromItem requires [C15:each_item_is_measured_against_the_limits_of_its_own_route] callee_maxBodyBytes == effPublishBody(s, callee_route) && callee_maxHeaderBytes == effPublishHdr(s, callee_route)
 //@   calls queue.BatchEnqueuer.EnqueueBatch requires [C15:scoped_path_enabled_policy_checked_and_audited] s.PublishScopedManagedEnabled && route == endpointRoute(application, endpointName) && route in managedPolicyOK && len(targets) > 0 && (s.RequireManagementAuditReason ==> trim(headerGet(r.Header, "X-Hookaido-Audit-Reason")) != "")
 //@   ensures [C15:error_response_means_nothing_enqueued] implements(s.Store, "queue.BatchEnqueuer") && respStatus != 200 ==> batchCommitted == old(batchCommitted) && enqueues == old(enqueues)
 //@   ensures [C15:ok_response_means_the_whole_batch_committed_in_one_call] implements(s.Store, "queue.BatchEnqueuer") && respStatus == 200 ==> batchCommitted == old(batchCommitted) + 1 && batchCalls == old(batchCalls) + 1 && lastBatchLen == len(local(items)) && lastBatchErr == nil
